@@ -281,7 +281,8 @@ def run(ctx):
     import paramiko.channel as chmod
     from pv import lib_chanlock
     sites, notifies = lib_chanlock.channel_tables(chmod.Channel)
-    ctx.write_generated("ChanLock", lib_chanlock.lean_tables(sites, notifies))
+    ctx.write_generated("ChanLock", lib_chanlock.lean_tables(sites, notifies,
+                                                             lib_chanlock.window_accesses(chmod.Channel)))
     ctx.extra["notify_sites"] = ["%s:%s:%s" % (x["caller"], x["kind"], "locked" if x["eff"] else "UNLOCKED")
                                  for x in notifies]
     ctx.build(extra_modules=["PV.Model.ChanDriver"])
